@@ -55,9 +55,14 @@ Theorem C08_hardwired_elements_intended : forall h, In h (dec_hardwired ++ enc_h
 Proof. exact hardwired_intended. Qed.
 Print Assumptions C08_hardwired_elements_intended.
 
-(* Every element or attribute the encoder writes in a typed binary form is one the parser decodes with the same type. *)
-Theorem C08_encoder_typed_forms_decoded : forall e, In e enc_hardwired -> decoded_same_P dec_hardwired e.
-Proof. exact encoder_forms_decoded. Qed.
+(* Every element or attribute the encoder writes in a typed form (opaque integer / date-time / binary, rewritten MIME type)
+   is handled with the same type in the other direction by the parser / XML generator — except the pinned one-sided entries
+   (today: the dmtnds MIME type in <Type> of SyncML 1.0 and 1.1, which only the encoder rewrites), which are shown to be
+   really one-sided. *)
+Theorem C08_encoder_typed_forms_decoded :
+  (forall e, In e enc_hardwired -> decoded_same_P dec_hardwired pinned_enc_only e) /\
+  forallb (fun x => existsb (hw_eqb x) enc_hardwired && negb (existsb (hw_eqb x) dec_hardwired)) pinned_enc_only = true.
+Proof. split; [exact encoder_forms_decoded | exact enc_only_realised]. Qed.
 Print Assumptions C08_encoder_typed_forms_decoded.
 
 (* ... and every pinned name is really singled out by the parser (the pinned set is not larger than the code). *)
